@@ -563,7 +563,7 @@ impl<C: Config, Q: Query> Snapshot<C, Q> {
 
     pub(super) async fn get_backward_projection_lock_guard(
         mut self,
-        caller_information: &CallerInformation,
+        _caller_information: &CallerInformation,
     ) -> Option<(Self, BackwardProjectionLockGuard<C>)> {
         let pending_backward_projection =
             PendingBackwardProjection { notify: Arc::new(Notify::new()) };
@@ -571,11 +571,7 @@ impl<C: Config, Q: Query> Snapshot<C, Q> {
         let engine = self.engine().clone();
 
         // double check if we really need to get the lock
-        if self
-            .pending_backward_projection()
-            .await
-            .is_none_or(|x| x.0 != caller_information.timestamp())
-        {
+        if self.pending_backward_projection().await.is_none() {
             return None;
         }
 
